@@ -56,9 +56,9 @@ theorem detectBeyondPolya_shift (k : Int) (p : Params) (iso : List Iv) (ext int 
           rcases hD with h | h
           · exact Or.inl h
           · exact Or.inr (h b hbm)
-        have dec := sentinel_decision k b.2 ext int (intervalsTotalLength (iso.drop (iso.length - c)))
-          p.max_fake_terminal_exon_len p.max_missed_exon_len p.delta hE hI hD'
-        simp only [dec]
+        -- since the fix of the sentinel distance (absent position = infinitely far) the decision is shift invariant
+        -- without `hD'` (kept in the statement for the callers)
+        simp only [distOrInf_shift k _ _ hE, distOrInf_shift k _ _ hI]
         split
         · simp only [Option.map_some, outShift, shiftEvents_append,
             shiftEvents_misalign k .terminal_exon_misalignment_right rfl, shiftPos_of_ne k lastE.2 (hEnd lastE hl)]
@@ -99,9 +99,9 @@ theorem detectBeforePolyt_shift (k : Int) (p : Params) (iso : List Iv) (ext int 
           rcases hD with h | h
           · exact Or.inl h
           · exact Or.inr (h b hbm)
-        have dec := sentinel_decision k b.1 ext int (intervalsTotalLength (iso.take c))
-          p.max_fake_terminal_exon_len p.max_missed_exon_len p.delta hE hI hD'
-        simp only [dec]
+        -- since the fix of the sentinel distance (absent position = infinitely far) the decision is shift invariant
+        -- without `hD'` (kept in the statement for the callers)
+        simp only [distOrInf_shift k _ _ hE, distOrInf_shift k _ _ hI]
         split
         · simp only [Option.map_some, outShift, shiftEvents_append,
             shiftEvents_misalign k .terminal_exon_misalignment_left rfl, shiftPos_of_ne k firstE.1 (hEnd firstE hl)]
